@@ -1,6 +1,10 @@
 #![allow(dead_code)]
 mod engine;
+mod model;
+mod probes;
 mod props;
+mod sys;
+mod vsys;
 
 use engine::*;
 use std::time::Instant;
@@ -14,6 +18,27 @@ fn main() {
     let args: Vec<String> = std::env::args().collect();
     if args.len() < 2 {
         usage();
+    }
+    if args[1] == "sh" {
+        // debugging aid: vcheck sh '<script>' [seed]
+        install_panic_hook();
+        let mut setup = vsys::Setup::script(&args[2]);
+        if let Some(seed) = args.get(3).and_then(|s| s.parse().ok()) {
+            setup.chooser = vsys::Chooser::Seeded(seed);
+        }
+        let r = vsys::run(&setup);
+        println!("status={} finished={} steps={} deadlock={} choices={}", r.status, r.finished, r.log.steps, r.log.deadlock, r.log.choices.len());
+        println!("--- stdout\n{}--- stderr\n{}--- trace", r.stdout, r.stderr);
+        for t in &r.trace {
+            println!("{t:?}");
+        }
+        for p in &r.procs {
+            println!("{p:?}");
+        }
+        if let Some(p) = r.panic {
+            println!("PANIC: {p}");
+        }
+        return;
     }
     if args[1] == "list" {
         for p in props::all() {
